@@ -337,6 +337,19 @@ func fieldIndex(t types.Type, name string) (int, bool) {
 
 // fieldPath finds field f in struct type t, looking through embedded structs (promoted fields).
 func fieldPath(t types.Type, f string, depth int) ([]int, bool) {
+	if i := strings.Index(f, "."); i > 0 && depth == 0 {
+		// dotted path through nested struct values: "Destination.Type"
+		head, ok := fieldPath(t, f[:i], 0)
+		if !ok {
+			return nil, false
+		}
+		_, ht := pathPrefix(t, head)
+		tail, ok := fieldPath(ht, f[i+1:], 0)
+		if !ok {
+			return nil, false
+		}
+		return append(head, tail...), true
+	}
 	st, ok := types.Unalias(t).Underlying().(*types.Struct)
 	if !ok || depth > 4 {
 		return nil, false
